@@ -785,8 +785,10 @@ func (c *Conn) readRecordOrCCS(expectChangeCipherSpec bool) error {
 				return c.in.setErrorLocked(c.sendAlert(alertUnexpectedMessage))
 			}
 			c.handBuf.Write(data)
-			// 如果还有未处理记录，继续循环处理
-			if len(c.rawInputBuf) > 0 {
+			// 同一数据报中后续的握手记录一并读入；其它类型的记录（会话重用时紧随 ServerHello 的
+			// CCS + Finished）留在缓冲区，待握手层处理完当前消息（协商版本、准备好密钥）后再读取，
+			// 否则客户端在 ServerHello 尚未处理时就遇到 CCS，会话重用握手必然失败。
+			if len(c.rawInputBuf) >= recordHeaderLen && recordType(c.rawInputBuf[0]) == recordTypeHandshake {
 				continue
 			}
 			return nil
